@@ -165,15 +165,24 @@ func NewFloatFromString(typ *types.FloatType, s string) (*Float, error) {
 			if err != nil {
 				return nil, errors.WithStack(err)
 			}
-			f := float128ppc.NewFromBits(a, b)
-			x, nan := f.Big()
-			if !nan && !x.IsInf() {
-				// The value of a double-double is the exact sum of its two
-				// doubles; the 106 bits of precision of f.Big drop the low
-				// double when the exponents of the two are far apart.
-				x = ppcFP128Sum(math.Float64frombits(a), math.Float64frombits(b))
+			high, low := math.Float64frombits(a), math.Float64frombits(b)
+			switch {
+			case math.IsNaN(high) || math.IsNaN(low):
+				// The sign of a NaN is the sign of its high double.
+				x := &big.Float{}
+				if math.Signbit(high) {
+					x.Neg(x)
+				}
+				return &Float{Typ: typ, X: x, NaN: true}, nil
+			case math.IsInf(high, 0):
+				// An infinite high double is an infinity, whatever the low
+				// double holds.
+				return &Float{Typ: typ, X: new(big.Float).SetInf(math.Signbit(high))}, nil
 			}
-			return &Float{Typ: typ, X: x, NaN: nan}, nil
+			// The value of a double-double is the exact sum of its two
+			// doubles; at the 106 bits of precision of float128ppc the low
+			// double is lost when the exponents of the two are far apart.
+			return &Float{Typ: typ, X: ppcFP128Sum(high, low)}, nil
 		// half (IEEE 754 half precision)
 		case strings.HasPrefix(s, "0xH"):
 			// From https://llvm.org/docs/LangRef.html#simple-constants
@@ -508,6 +517,10 @@ func (c *Float) Ident() string {
 		// what remains (computed exactly; float128ppc.NewFromBig rounds the
 		// value to 106 bits first).
 		high, _ := c.X.Float64()
+		if math.IsInf(high, 0) {
+			// Beyond the largest double by no more than the low double holds.
+			high = math.Copysign(math.MaxFloat64, high)
+		}
 		rest := new(big.Float).SetPrec(ppcFP128Prec).Sub(c.X, new(big.Float).SetPrec(ppcFP128Prec).SetFloat64(high))
 		low, acc := rest.Float64()
 		if acc != big.Exact {
